@@ -559,3 +559,87 @@ def rule_growth_storage(ctx, rep, config="c-lib", tag=""):
 
 def rule_growth_storage_cxx(ctx, rep, config="cxx-lib"):
     rule_growth_storage(ctx, rep, config="cxx-lib", tag="[c++] ")
+
+
+def rule_goto_cache_validity(ctx, rep, config="c-lib"):
+    rep.rule("R27-goto-valid", "the cache of transitions remembers, for every set it keeps, the position `place' in the parser list at which the set was built, and "
+                               "check_cached_transition_set accepts the set when pl[pl_curr + 1 - dist] == pl[place + 1 - dist] -- it reads the parser list as it is NOW.  "
+                               "That describes the origins of the cached set only while the list is append-only.  A call made by build_pl that rewrites elements of pl "
+                               "or moves pl_curr (error_recovery) is therefore followed, on every path to the next validation of a cached set, by the emptying of the "
+                               "cache table: otherwise a set built for origins that were replaced is accepted (a set whose distances point at other sets: wrong parse, "
+                               "NULL distance vector in build_new_set), and with pl_curr below the remembered place the index pl_curr + 1 - dist is negative")
+    from .r14 import path_exists
+    p = ctx.prog(config)
+    f = p.fn("build_pl")
+    chk = p.fn("check_cached_transition_set")
+    rep.cover(p, [f.name, chk.name])
+    # premise: the validity test indexes pl with a value made from its `place' argument
+    prem = False
+    for l_ in chk.all_insts():
+        if l_.op != "load":
+            continue
+        a = resolve_addr(chk, l_.ops[0])
+        if a.root[0] == "val":
+            base = loaded_from(chk, a.root[1])
+            if base is not None and base.root == ("g", "pl") and not base.steps and a.steps:
+                for st in a.steps:
+                    if st[0] in ("idx", "ptr"):
+                        li = expr.lin(chk, st[1], 0, 1)
+                        if any(k == "a1" for k in li.t):
+                            prem = True
+    if not prem:
+        raise AnalysisBroken("R27-goto-valid: check_cached_transition_set does not read pl[.. place ..]: the validity test has another structure than the rule knows")
+    probes = [c for c in f.calls() if c.callee == "check_cached_transition_set"]
+    if not probes:
+        raise AnalysisBroken("R27-goto-valid: build_pl does not call check_cached_transition_set")
+    memo = {}
+
+    def rewrites(g, depth=0):
+        if g.name in memo:
+            return memo[g.name]
+        memo[g.name] = False
+        r = False
+        for i in g.all_insts():
+            if i.op == "store":
+                a = resolve_addr(g, i.ops[1])
+                if a.root == ("g", "pl_curr") and not a.steps:
+                    r = True
+                elif a.root[0] == "val" and a.steps:
+                    base = loaded_from(g, a.root[1])
+                    if base is not None and base.root == ("g", "pl") and not base.steps:
+                        r = True
+            elif i.is_call() and depth < 8:
+                for t in p.call_targets(g, i):
+                    h = p.m.functions.get(t)
+                    if h is not None and not h.decl and rewrites(h, depth + 1):
+                        r = True
+            if r:
+                break
+        memo[g.name] = r
+        return r
+    writers = []
+    for c in f.calls():
+        for t in p.call_targets(f, c):
+            h = p.m.functions.get(t)
+            if h is not None and not h.decl and rewrites(h):
+                writers.append(c)
+                break
+    flushes = []
+    for c in f.calls():
+        if c.callee in ("empty_hash_table", "_ZN10hash_table5emptyEv") and c.args:
+            lp = loaded_from(f, c.args[0])
+            if lp is not None and lp.root == ("g", "set_term_lookahead_tab") and not lp.steps:
+                flushes.append(c)
+    n = 0
+    for w in writers:
+        n += 1
+        key = "build_pl/cache-emptied-after-%s#%d" % (w.callee, n)
+        bad = [q for q in probes if path_exists(f, w, q, flushes)]
+        if bad:
+            rep.violation("R27-goto-valid", key, "%s rewrites the parser list (elements of pl, pl_curr) and the next validation of a cached transition is reached without the "
+                          "cache having been emptied: check_cached_transition_set compares against sets that are no longer the origins of the cached set, and reads "
+                          "pl[pl_curr + 1 - dist] with a negative index when pl_curr was moved back below the remembered place" % w.callee,
+                          where=w.where(), witness=[w.where(), bad[0].where()])
+        else:
+            rep.ok("R27-goto-valid", key, sample={"rewriter": w.where(), "emptied_at": [x.where() for x in flushes][:2]})
+    rep.floor("R27-goto-valid", "calls of build_pl that rewrite the parser list", n, 1)
